@@ -12,7 +12,13 @@ func Select(list List, limit int, selector func(Doc) (bool, bool)) List {
 	// prepare result
 	var result List
 	if limit > 0 {
-		result = make(List, 0, limit)
+		// never allocate more than the list can yield (a huge limit would
+		// otherwise panic in makeslice or exhaust memory)
+		capacity := limit
+		if capacity > len(list) {
+			capacity = len(list)
+		}
+		result = make(List, 0, capacity)
 	}
 
 	// select documents
